@@ -11,9 +11,10 @@
      * strconv.FormatFloat(x, 'f', prec, 64): exact decimal expansion of the double, rounded
        half-to-even at [prec] decimals (computed exactly in Z from mantissa and exponent);
      * time.Duration.Seconds(): float64(d / 1e9) + float64(d % 1e9) / 1e9;
-     * Time.Format / time.Parse for the two layouts of media.go, years 0..9999. *)
+     * Time.Format / time.Parse for the two layouts of media.go, years 0..9999
+       (Model/PlaylistTime.v, pure Z). *)
 From Coq Require Import List ZArith Bool String Ascii Floats Uint63.
-From GoHls Require Import Model.PlaylistBase.
+From GoHls Require Import Model.PlaylistBase Model.PlaylistTime.
 Import ListNotations.
 Local Open Scope string_scope.
 Local Open Scope Z_scope.
@@ -47,13 +48,6 @@ Definition float_scaled (f : float) (dec : Z) : option (bool * Z) :=
         Some (s, if up then q + 1 else q)
   end.
 
-(* exactly [n] decimal digits of z (most significant first) *)
-Fixpoint pad_digits (n : nat) (z : Z) (acc : string) : string :=
-  match n with
-  | O => acc
-  | S n' => pad_digits n' (z / 10) (String (digit_char (z mod 10)) acc)
-  end.
-
 (* strconv.FormatFloat(f, 'f', dec, 64) for finite f *)
 Definition format_fixed (f : float) (dec : nat) : string :=
   match float_scaled f (Z.of_nat dec) with
@@ -64,12 +58,6 @@ Definition format_fixed (f : float) (dec : nat) : string :=
   end.
 
 (* ---------- the decimal class ---------- *)
-Fixpoint all_digits (s : string) : bool :=
-  match s with
-  | "" => true
-  | String c s' => match digit_of c with Some _ => all_digits s' | None => false end
-  end.
-
 (* (negative, mantissa k, number of fractional digits m): the text denotes (-1)^neg * k / 10^m *)
 Definition parse_decimal (s : string) : option (bool * Z * nat) :=
   let '(neg, body) :=
@@ -136,137 +124,6 @@ Definition go_parse_rate (s : string) : option Z :=
 
 Definition go_fmt_rate (n : Z) : string :=
   format_fixed (PrimFloat.div (float_of_Z n) float_1e9) 3.
-
-(* ---------- civil time ---------- *)
-(* days since 1970-01-01 <-> proleptic Gregorian date *)
-Definition days_from_civil (y m d : Z) : Z :=
-  let y' := if m <=? 2 then y - 1 else y in
-  let era := y' / 400 in
-  let yoe := y' - era * 400 in
-  let mp := (m + 9) mod 12 in
-  let doy := (153 * mp + 2) / 5 + d - 1 in
-  let doe := yoe * 365 + yoe / 4 - yoe / 100 + doy in
-  era * 146097 + doe - 719468.
-
-Definition civil_from_days (z : Z) : Z * Z * Z :=
-  let z := z + 719468 in
-  let era := z / 146097 in
-  let doe := z - era * 146097 in
-  let yoe := (doe - doe / 1460 + doe / 36524 - doe / 146096) / 365 in
-  let y := yoe + era * 400 in
-  let doy := doe - (365 * yoe + yoe / 4 - yoe / 100) in
-  let mp := (5 * doy + 2) / 153 in
-  let d := doy - (153 * mp + 2) / 5 + 1 in
-  let m := if mp <? 10 then mp + 3 else mp - 9 in
-  (if m <=? 2 then y + 1 else y, m, d).
-
-Definition is_leap (y : Z) : bool :=
-  ((y mod 4 =? 0) && negb (y mod 100 =? 0)) || (y mod 400 =? 0).
-
-Definition days_in (m y : Z) : Z :=
-  if m =? 2 then (if is_leap y then 29 else 28)
-  else if (m =? 4) || (m =? 6) || (m =? 9) || (m =? 11) then 30 else 31.
-
-Definition d2 (z : Z) : string := pad_digits 2 z "".
-Definition d4 (z : Z) : string := pad_digits 4 z "".
-
-Fixpoint trim_trailing_zeros_rev (l : list ascii) : list ascii :=
-  match l with
-  | c :: tl => if Ascii.eqb c "0" then trim_trailing_zeros_rev tl else l
-  | [] => []
-  end.
-
-Definition frac_millis (ms : Z) : string :=
-  if ms =? 0 then ""
-  else "." ++ string_of_list_ascii
-                (rev (trim_trailing_zeros_rev (rev (list_ascii_of_string (pad_digits 3 ms ""))))).
-
-(* Time.Format("2006-01-02T15:04:05.999Z07:00"), years 0..9999 *)
-Definition go_fmt_time (t : dtime) : string :=
-  let local := dt_ns t + dt_off t * 1000000000 in
-  let secs := local / 1000000000 in
-  let nsec := local mod 1000000000 in
-  let days := secs / 86400 in
-  let sod := secs mod 86400 in
-  let '(y, mo, d) := civil_from_days days in
-  let off := dt_off t in
-  d4 y ++ "-" ++ d2 mo ++ "-" ++ d2 d ++ "T"
-  ++ d2 (sod / 3600) ++ ":" ++ d2 ((sod / 60) mod 60) ++ ":" ++ d2 (sod mod 60)
-  ++ frac_millis (nsec / 1000000)
-  ++ (if off =? 0 then "Z"
-      else let zone := Z.quot off 60 in
-           (if zone <? 0 then "-" else "+")
-           ++ d2 (Z.abs zone / 60) ++ ":" ++ d2 (Z.abs zone mod 60)).
-
-Definition num_n (n : nat) (s : string) : option (Z * string) :=
-  let h := take n s in
-  if Nat.eqb (slen h) n && all_digits h then
-    match parse_digits 0 h with Some v => Some (v, drop n s) | None => None end
-  else None.
-
-Definition expect (c : ascii) (s : string) : option string :=
-  match s with
-  | String a s' => if Ascii.eqb a c then Some s' else None
-  | "" => None
-  end.
-
-Fixpoint count_digits (s : string) : nat :=
-  match s with
-  | String c s' => match digit_of c with Some _ => S (count_digits s') | None => O end
-  | "" => O
-  end.
-
-Definition opt_bind {A B} (o : option A) (k : A -> option B) : option B :=
-  match o with Some a => k a | None => None end.
-Notation "'let?' x := m 'in' k" := (opt_bind m (fun x => k))
-  (at level 200, x pattern, m at level 100, k at level 200, right associativity).
-
-(* zone: Z | [+-]hh:mm | [+-]hhmm, then end of input *)
-Definition parse_zone (s : string) : option Z :=
-  match s with
-  | "Z" => Some 0
-  | String sg rest =>
-      if Ascii.eqb sg "+" || Ascii.eqb sg "-" then
-        let? (hh, r1) := num_n 2 rest in
-        let r2 := match r1 with String ":" r => r | _ => r1 end in
-        let? (mm, r3) := num_n 2 r2 in
-        if negb (String.eqb r3 "") then None
-        else if (24 <? hh) || (60 <? mm) then None
-        else let o := (hh * 60 + mm) * 60 in Some (if Ascii.eqb sg "-" then - o else o)
-      else None
-  | "" => None
-  end.
-
-(* parseTime on  YYYY-MM-DDThh:mm:ss[.f{1,9}](Z|[+-]hh:mm|[+-]hhmm) *)
-Definition go_parse_time (s : string) : option dtime :=
-  let? (y, s) := num_n 4 s in
-  let? s := expect "-" s in
-  let? (mo, s) := num_n 2 s in
-  let? s := expect "-" s in
-  let? (d, s) := num_n 2 s in
-  let? s := expect "T" s in
-  let? (h, s) := num_n 2 s in
-  let? s := expect ":" s in
-  let? (mi, s) := num_n 2 s in
-  let? s := expect ":" s in
-  let? (sec, s) := num_n 2 s in
-  let? (frac, s) :=
-    match s with
-    | String "." r =>
-        let n := count_digits r in
-        if Nat.eqb n 0 || Nat.ltb 9 n then None
-        else match parse_digits 0 (take n r) with
-             | Some v => Some (v * 10 ^ Z.of_nat (9 - n), drop n r)
-             | None => None
-             end
-    | _ => Some (0, s)
-    end in
-  let? off := parse_zone s in
-  if (mo <? 1) || (12 <? mo) || (d <? 1) || (days_in mo y <? d)
-     || (23 <? h) || (59 <? mi) || (59 <? sec) then None
-  else
-    let secs := days_from_civil y mo d * 86400 + h * 3600 + mi * 60 + sec - off in
-    Some {| dt_ns := secs * 1000000000 + frac; dt_off := off |}.
 
 Definition go_oracles : oracles :=
   {| fmt_dur := go_fmt_dur; parse_dur := go_parse_dur;
